@@ -553,24 +553,33 @@ func checkFrameHelpers(p *load.Program, r *kit.Report, rule string) {
 		if reads == 0 {
 			bad = "DiscardInput reads nothing"
 		}
-		// chunk arithmetic: quotient and remainder by the same constant as the chunk buffer
-		var q, rem int64 = -1, -1
-		kit.AllInstrs(f, func(in ssa.Instruction) {
-			if b, ok := in.(*ssa.BinOp); ok {
-				if k, ok := kit.ConstInt(b.Y); ok {
-					if b.Op == token.QUO {
-						q = k
+		// exactly n bytes are asked of the reader, whatever form the chunking takes: evaluated for
+		// representatives of n
+		if bad == "" || strings.HasPrefix(bad, "unexpected read size") {
+			bad = ""
+			var nPrm *ssa.Parameter
+			for _, prm := range f.Params {
+				if isIntLike(prm.Type()) {
+					nPrm = prm
+				}
+			}
+			if nPrm == nil {
+				bad = "no byte-count parameter"
+			} else {
+				for _, n := range []int64{0, 1, 2, 1023, 1024, 1025, 2047, 2048, 2049, 5000, 65536, 70001} {
+					got, why := simulateReads(f, nPrm, n)
+					if why != "" {
+						bad = fmt.Sprintf("DiscardInput(%d): %s", n, why)
+						break
 					}
-					if b.Op == token.REM {
-						rem = k
+					if got != n {
+						bad = fmt.Sprintf("DiscardInput(%d) reads %d bytes: the next message is parsed from the wrong offset", n, got)
+						break
 					}
 				}
 			}
-		})
-		if bad == "" && (q != rem) {
-			bad = fmt.Sprintf("chunk count uses /%d but the remainder uses %%%d", q, rem)
 		}
-		r.Check(bad == "", rule, "DiscardInput/exact", posOf(p, f.Blocks[0].Instrs[0]), "n/1024 full chunks + n%1024 bytes, all with io.ReadFull", bad)
+		r.Check(bad == "", rule, "DiscardInput/exact", posOf(p, f.Blocks[0].Instrs[0]), "exactly n bytes are read, with full reads, for every n (evaluated for 12 representative sizes)", bad)
 	}
 	// handleMessage no-handler arm
 	if f := fn(p, r, rule, R, "BitcoinNode.handleMessage"); f != nil {
